@@ -61,8 +61,8 @@ phase 2 run with any fault and be stopped right before ANY of its calls (or run 
 finds is either the old one — every node that existed before exactly as before — or the new one — every node the
 transaction updated at its new blob and version + 1, every node it did not touch as before. Never a mixture. -/
 theorem C03_phase2_all_or_nothing {s0 : State} {w : WS} {fresh0 : List (UUID × UUID)} (pre : Pre s0 w fresh0)
-    (pre2 : Pre2 s0 w fresh0) (tid : Tid) (f1 : Option Fault) (n : Nat) (r1 : Run) (u : Unit)
-    (h1 : phase1 w n { s := s0, tid := tid, fault := f1, fresh := fresh0 } = .ok (u, r1))
+    (pre2 : Pre2 s0 w fresh0) {cs0 : Step} (tid : Tid) (f1 : Option Fault) (n : Nat) (r1 : Run) (u : Unit)
+    (h1 : phase1 w n { s := s0, tid := tid, fault := f1, fresh := fresh0, cs := cs0 } = .ok (u, r1))
     (stop : Option (Cls × Nat)) (fault : Option Fault) :
     let seesOld (r : Run) := ∀ lid, (s0.view lid).isSome → r.s.view lid = s0.view lid
     let seesNew (r : Run) :=
@@ -73,7 +73,7 @@ theorem C03_phase2_all_or_nothing {s0 : State} {w : WS} {fresh0 : List (UUID × 
     | .ok (_, r) => seesNew r
     | .error r => seesOld r ∨ seesNew r := by
   intro seesOld seesNew
-  have hj0 : J0 s0 w fresh0 { s := s0, tid := tid, fault := f1, fresh := fresh0 } :=
+  have hj0 : J0 s0 w fresh0 { s := s0, tid := tid, fault := f1, fresh := fresh0, cs := cs0 } :=
     ⟨⟨SInv.init s0 w fresh0 pre, fun _ hp => hp⟩, rfl, rfl⟩
   have hst := staged_phase1 pre pre2 n _ hj0
   rw [h1] at hst
